@@ -33,6 +33,7 @@ MODELS_Q = [(1, 2, 16, 0), (1, 4, 32, 1), (2, 2, 16, 1), (2, 4, 32, 0), (3, 2, 1
 MODELS_T = [(d, h, w, s) for d in (1, 2, 3) for (h, w) in ((1, 16), (2, 16), (4, 32)) for s in (0, 1)]
 BATCHES = {           # name -> (width, [line content seeds])
     'A': (64, [1, 2, 3]), 'B': (64, [4, 5, 6]), 'C': (64, [7, 8]), 'D': (96, [9]), 'E': (96, [10, 11, 12]), 'F': (64, [1, 13, 14]),
+    'G': (64, [1001, 2, 1002]), 'H': (64, [1003]),       # seeds >= 1000: binarised crops stored as 0 / 1 (legal uint8 images whose maximum is 1)
 }
 BNAMES = sorted(BATCHES)
 EVENTS = [(b, c) for b in BNAMES for c in (True, False)]
@@ -44,6 +45,12 @@ BOUNDS = {'quick': dict(depth=2, models=MODELS_Q, ro_depth=2, ro_models=WIDE_MOD
           'thorough': dict(depth=3, models=MODELS_T, ro_depth=3, ro_models=WIDE_MODELS, big_models=MODELS_Q)}
 BOUNDS['replay'] = BOUNDS['thorough']
 TOL = 1e-4
+
+
+def amax(x):
+    """largest absolute value; a NaN anywhere counts as an infinite difference (scores that are not numbers equal nothing)"""
+    x = np.abs(np.asarray(x, dtype=np.float64))
+    return float('inf') if x.size and bool(np.isnan(x).any()) else (float(x.max()) if x.size else 0.0)
 _M, _ALONE = {}, {}
 
 
@@ -154,6 +161,8 @@ def make_engine(net):
 
 def line_image(seed, width):
     rng = np.random.RandomState(seed)
+    if seed >= 1000:
+        return rng.randint(0, 2, size=(3, H, width)).astype(np.uint8)
     return rng.randint(0, 256, size=(3, H, width)).astype(np.uint8)
 
 
@@ -180,7 +189,14 @@ def shards(tier):
             out.append({'mix_model': mi, 'first': first})
     for w in (1920, 2112):
         out.append({'buildnet': w})
+    for mi in range(len(RELOAD_MODELS[tier if tier in RELOAD_MODELS else 'quick'])):
+        out.append({'reload_model': mi})
     return out
+
+
+# the weights of a network object are replaced in place (load_state_dict: another checkpoint of the same architecture) between two batches
+RELOAD_MODELS = {'quick': [(1, 2, 16, 0), (2, 4, 32, 0)], 'thorough': [(1, 2, 16, 0), (2, 4, 32, 0), (3, 2, 16, 1), (2, 2, 16, 1)]}
+RELOAD_MODELS['replay'] = RELOAD_MODELS['thorough']
 
 
 LONGRUN_MODELS = [(2, 2, 16, 0, 'wide'), (3, 2, 16, 1, 'wide')]        # decoders with several layers, lines that run to the cap (160 steps)
@@ -208,6 +224,15 @@ def run_shard(shard, ctx, tier):
         return
     if 'buildnet' in shard:
         guarded_check(mod, {'buildnet': shard['buildnet']}, ctx)
+        return
+    if 'reload_model' in shard:
+        spec = RELOAD_MODELS[tier if tier in RELOAD_MODELS else 'quick'][shard['reload_model']]
+        for first in range(len(EVENTS)):
+            if EVENTS[first][0] not in ('A', 'D'):
+                continue
+            for second in range(len(EVENTS)):
+                if EVENTS[second][0] in ('A', 'B', 'D'):
+                    guarded_check(mod, {'model': list(spec), 'reload': [first, second]}, ctx)
         return
     if 'big_model' in shard:
         guarded_check(mod, {'model': list(b['big_models'][shard['big_model']]), 'big': shard['big']}, ctx)
@@ -269,8 +294,8 @@ def check_run_ocr(case, ctx):
     ctx.state((tuple(spec), 'run_ocr', tuple(hist)))
     desc = f'model {tuple(spec)}, run_ocr on batches {[(n, RO_BATCHES[n]) for n in hist]} (width px, line seeds) in turn on one engine'
     n = min(logits.shape[1], logits0.shape[1])
-    if list(dec) != list(dec0) or logits.shape != logits0.shape or float(np.abs(logits[:, :n] - logits0[:, :n]).max()) > TOL:
-        d = float(np.abs(logits[:, :n] - logits0[:, :n]).max())
+    if list(dec) != list(dec0) or logits.shape != logits0.shape or amax(logits[:, :n] - logits0[:, :n]) > TOL:
+        d = amax(logits[:, :n] - logits0[:, :n])
         ctx.violation('independent-of-earlier-batches', f'{K}/depends-on-earlier-batches',
                       f'{desc}: the last batch gives {list(dec)} (scores differ by {d:.4g}, {logits.shape[1]} steps); a fresh engine gives {list(dec0)} '
                       f'({logits0.shape[1]} steps)')
@@ -279,7 +304,7 @@ def check_run_ocr(case, ctx):
         m = min(l1.shape[1], logits0.shape[1])
         end = next((t for t, sy in enumerate(l1[0].argmax(axis=-1)) if sy == SB), l1.shape[1])
         m = min(m, end + 1)
-        if float(np.abs(l1[0, :m] - logits0[i, :m]).max()) > TOL:
+        if amax(l1[0, :m] - logits0[i, :m]) > TOL:
             ctx.violation('independent-of-other-lines', f'{K}/line-depends-on-its-batch',
                           f'{desc}: line {i} of the last batch scores differently when given to run_ocr alone')
             return
@@ -368,13 +393,13 @@ def check_mixed(case, ctx):
     ctx.executed(len(hist) + 2)
     ctx.state((tuple(spec), 'mixed', tuple(hist)))
     n = min(lg.shape[1], lg0.shape[1])
-    if res != res0 or lg.shape != lg0.shape or float(np.abs(lg[:, :n] - lg0[:, :n]).max()) > TOL:
+    if res != res0 or lg.shape != lg0.shape or amax(lg[:, :n] - lg0[:, :n]) > TOL:
         ctx.violation('independent-of-earlier-batches', f'{K}/depends-on-earlier-calls',
                       f'{desc}: the last call gives {res} ({lg.shape[1]} steps); the same call on a fresh engine gives {res0} ({lg0.shape[1]} steps)')
         return
     entry, bname = hist[-1]
     n = min(lg.shape[1], lgp.shape[1])
-    if float(np.abs(lg[:, :n] - lgp[:, :n]).max()) > TOL or lg.shape[1] != lgp.shape[1]:
+    if amax(lg[:, :n] - lgp[:, :n]) > TOL or lg.shape[1] != lgp.shape[1]:
         ctx.violation('cached-equals-uncached', f'{K}/entry-point-changes-the-scores',
                       f'{desc}: the scores of the last call differ from plain uncached transcription of the same (padded) batch')
         return
@@ -441,7 +466,7 @@ def check_big(case, ctx):
         syms = [int(x) for x in outs[li]]
         n = min(a_logits.shape[0], logits.shape[1])
         clear = bool(np.all(np.sort(a_logits, axis=-1)[:, -1] - np.sort(a_logits, axis=-1)[:, -2] > 1e-3))
-        if logits.shape[1] < min(a_logits.shape[0], 32 // 4) or float(np.abs(a_logits[:n] - logits[li, :n]).max()) > TOL or (clear and syms != a_syms):
+        if logits.shape[1] < min(a_logits.shape[0], 32 // 4) or amax(a_logits[:n] - logits[li, :n]) > TOL or (clear and syms != a_syms):
             ctx.violation('equals-line-decoded-alone', f'{K}/differs-from-line-alone',
                           f'{desc}: line {li} -> {syms} in {logits.shape[1]} steps; decoded alone {a_syms} in {a_logits.shape[0]} steps')
             return
@@ -503,11 +528,11 @@ def check_longrun(case, ctx):
     d1, d2 = d1[:upto], d2[:upto]
     if upto > 140:
         ctx.tag('long-run-compared-beyond-128-steps')
-    if d1.max() > TOL:
+    if amax(d1) > TOL:
         ctx.violation('cached-equals-recomputed', f'{K}/cached-differs-from-recomputed',
                       f'{desc}: scores differ by {float(d1.max()):.4g}, first at step {int(np.argmax(d1 > TOL))}')
         return
-    if d2.max() > TOL:
+    if amax(d2) > TOL:
         ctx.violation('equals-teacher-forced-forward', f'{K}/cached-differs-from-teacher-forced-forward',
                       f'{desc}: scores differ from TransformerOCR.forward by {float(d2.max()):.4g}, first at step {int(np.argmax(d2 > TOL))}')
         return
@@ -565,7 +590,7 @@ def check_buildnet(case, ctx):
         ctx.violation('decoding-terminates', f'{K}/step-count', f'{desc}, expected the cap of {cap}')
         return
     d = (np.abs(lg - ref[:lg.shape[0]]) / np.maximum(1.0, np.abs(lg))).max(axis=-1)
-    if d.max() > 10 * TOL:
+    if amax(d) > 10 * TOL:
         ctx.violation('equals-teacher-forced-forward', f'{K}/cached-differs-from-teacher-forced-forward',
                       f'{desc}: scores differ from TransformerOCR.forward by {float(d.max()):.4g}, first at step {int(np.argmax(d > 10 * TOL))}')
         return
@@ -573,8 +598,41 @@ def check_buildnet(case, ctx):
     ctx.tag('network-from-build_net-on-the-widest-crops')
 
 
+def check_reload(case, ctx):
+    """one network object decodes a batch, gets the weights of another checkpoint (same architecture) loaded in place, and decodes again: the second
+    decoding is that of the network as it is now - equal to a pristine network with those weights decoding each line alone, uncached"""
+    import torch
+    spec = tuple(case['model'])
+    spec2 = (spec[0], spec[1], spec[2], 1 - spec[3])
+    (n1, c1), (n2, c2) = EVENTS[case['reload'][0]], EVENTS[case['reload'][1]]
+    net = copy.deepcopy(pristine(spec))
+    eng = make_engine(net)
+    with torch.no_grad(), ctx.time_limit(60):
+        eng.transcribe_batch(batch_images(n1).copy(), is_cached=c1)
+        net.load_state_dict(copy.deepcopy(pristine(spec2).state_dict()))
+        outs, logits = eng.transcribe_batch(batch_images(n2).copy(), is_cached=c2)
+    ctx.executed(2)
+    logits = logits.numpy()
+    ctx.state((spec, 'reload', cache_state(net), n1, c1, n2, c2))
+    w, seeds = BATCHES[n2]
+    desc = (f'model {spec}: batch {n1} decoded ({"cached" if c1 else "uncached"}), weights of checkpoint {spec2} loaded in place (load_state_dict), '
+            f'batch {n2} decoded ({"cached" if c2 else "uncached"})')
+    for li, seed in enumerate(seeds):
+        a_syms, a_logits = alone(spec2, seed, w)
+        n = min(a_logits.shape[0], logits.shape[1])
+        d = amax(a_logits[:n] - logits[li, :n])
+        if d > TOL:
+            ctx.violation('cached-equals-recomputed', f'{ID}/weights-reloaded-in-place/{"cached" if c2 else "uncached"}/differs-from-a-pristine-network-with-these-weights',
+                          f'{desc}: line {li} scores differ by {d:.4g} from a pristine network with the new weights decoding the line alone, uncached')
+            return
+    ctx.outcome(('reload', n2, logits.shape[1]))
+    ctx.tag('weights-reloaded-in-place-between-batches')
+
+
 def check_case(case, ctx):
     import torch
+    if 'reload' in case:
+        return check_reload(case, ctx)
     if 'longrun' in case:
         return check_longrun(case, ctx)
     if 'buildnet' in case:
@@ -632,7 +690,7 @@ def check_case(case, ctx):
         # (a) the same line alone, uncached, pristine model
         a_syms, a_logits = alone(spec, seed, w)
         n = min(a_logits.shape[0], logits.shape[1])
-        d = float(np.abs(a_logits[:n] - logits[li, :n]).max())
+        d = amax(a_logits[:n] - logits[li, :n])
         if d > TOL:
             t_bad = int(np.argmax(np.abs(a_logits[:n] - logits[li, :n]).max(axis=-1)))
             how = 'cached' if cached else 'uncached'
@@ -652,7 +710,7 @@ def check_case(case, ctx):
             ref = copy.deepcopy(pristine(spec))(img, labels)         # [T, 1, C]
         ctx.executed()
         ref = ref.numpy()[:, 0, :]
-        d = float(np.abs(ref - logits[li]).max())
+        d = amax(ref - logits[li])
         if d > TOL:
             how = 'cached' if cached else 'uncached'
             ctx.violation('equals-teacher-forced-forward', f'{K}/{how}/differs-from-teacher-forced-forward',
@@ -667,6 +725,8 @@ def check_case(case, ctx):
         ctx.tag('line-hit-the-length-cap')
     if any(IGN in [int(x) for x in logits[li].argmax(axis=-1)[:finish[li]]] for li in range(len(seeds))):
         ctx.tag('ignore-symbol-emitted-mid-line')
+    if any(sd >= 1000 for sd in seeds):
+        ctx.tag('binarised-crop-in-the-batch')
     if len(hist) > 1:
         pn, pc = hist[-2]
         if len(BATCHES[pn][1]) == len(seeds):
@@ -687,7 +747,7 @@ def describe(tier):
         'alphabets': {'batches(width, line seeds)': BATCHES, 'events': len(EVENTS)},
         'assumptions': ['scores compared within 1e-4 (float32)', 'transcripts compared only when every deciding arg-max margin exceeds 1e-3'],
         'min_nontrivial': 50,
-        'required_tags': ['entry-point-histories', 'transcribe_batch-after-run_ocr-of-the-same-batch-size', 'run_ocr-batch-with-an-empty-transcription', 'long-run-compared-beyond-128-steps', 'network-from-build_net-on-the-widest-crops', 'run_ocr-histories', 'run_ocr-narrower-batch-after-a-wider-one', 'batch-at-a-byte-boundary', 'lines-finish-at-different-steps', 'line-hit-the-length-cap', 'previous-batch-of-same-size-and-width',
+        'required_tags': ['weights-reloaded-in-place-between-batches', 'binarised-crop-in-the-batch', 'entry-point-histories', 'transcribe_batch-after-run_ocr-of-the-same-batch-size', 'run_ocr-batch-with-an-empty-transcription', 'long-run-compared-beyond-128-steps', 'network-from-build_net-on-the-widest-crops', 'run_ocr-histories', 'run_ocr-narrower-batch-after-a-wider-one', 'batch-at-a-byte-boundary', 'lines-finish-at-different-steps', 'line-hit-the-length-cap', 'previous-batch-of-same-size-and-width',
                           'previous-batch-of-same-size-other-width', 'cached-and-uncached-calls-mixed',
                           'line-finished-at-first-step-while-others-continue', 'ignore-symbol-emitted-mid-line'],
     }
